@@ -1,6 +1,7 @@
 package main
 
 import (
+	"os/exec"
 	"encoding/json"
 	"go/ast"
 	"flag"
@@ -30,6 +31,7 @@ type PropSpec struct {
 	Trusted     []string   `json:"trusted_base,omitempty"`
 	Level       string     `json:"level,omitempty"`
 	Replay      *ReplaySpec `json:"replay,omitempty"`
+	Conformance []ReplaySpec `json:"conformance,omitempty"` // thorough tier: bounded runs of assumed library contracts
 }
 
 type KnownFinding struct {
@@ -574,6 +576,52 @@ func cmdCheck(args []string) int {
 		data, _ := json.MarshalIndent(base, "", " ")
 		writeFileAtomic(filepath.Join(*verif, "baseline_obligations.json"), data)
 	}
+	// thorough tier extras (bounded, labelled as such, never counted in obligations/discharged):
+	//  (a) conformance runs of the assumed library contracts this property rests on,
+	//  (b) the property's replay harness on THIS tree (it must find nothing when every obligation holds),
+	//  (c) the must-fail corpus of the property: every stored property-breaking change must still be reported.
+	// A failure of (a) or (c), or of (b) on a tree whose obligations all hold, means the machinery itself is
+	// wrong: engine fault (exit 2), never a VIOLATION line.
+	var boundedNotes []string
+	if *tier == "thorough" && !*discard {
+		for i := range ps.Conformance {
+			cs := &ps.Conformance[i]
+			c := runReplay(cs, *repo, *verif, "", ps.ID, seed)
+			okLines := 0
+			for _, ln := range strings.Split(c.Log, "\n") {
+				if strings.HasPrefix(strings.TrimSpace(ln), "CONFORMANCE-OK") {
+					okLines++
+					boundedNotes = append(boundedNotes, "bounded conformance run: "+strings.TrimSpace(ln))
+				}
+			}
+			if okLines == 0 || strings.Contains(c.Log, "--- FAIL") || strings.Contains(c.Outcome, "harness exit") {
+				engineFault = append(engineFault, "conformance run "+cs.Run+" of an assumed contract failed: "+firstLines(c.Log, 6))
+			}
+		}
+		if ps.Replay != nil && len(res.failed) == 0 && len(res.translateErr) == 0 {
+			c := runReplay(ps.Replay, *repo, *verif, "", ps.ID, seed)
+			if c.Reproduced {
+				engineFault = append(engineFault, "every obligation holds but the bounded replay harness reports a failing input: "+firstLines(c.Log, 4))
+			} else {
+				for _, ln := range strings.Split(c.Log, "\n") {
+					if strings.HasPrefix(strings.TrimSpace(ln), "NOT-REPRODUCED") {
+						boundedNotes = append(boundedNotes, "bounded replay harness on this tree: "+strings.TrimSpace(ln))
+					}
+				}
+			}
+		}
+		if _, err := os.Stat(filepath.Join(*verif, "selftest", "mustfail")); err == nil && *repo == "/repo" {
+			cmd := exec.Command("python3", filepath.Join(*verif, "tools", "selftest.py"), "--property", ps.ID, "--jobs", "4")
+			cmd.Dir = *verif
+			out, err := cmd.CombinedOutput()
+			last := firstLines(lastLine(string(out)), 1)
+			boundedNotes = append(boundedNotes, "must-fail corpus: "+last)
+			if err != nil {
+				engineFault = append(engineFault, "must-fail corpus: a stored property-breaking change is no longer reported:\n"+string(out))
+			}
+		}
+		ps.Bounded = append(ps.Bounded, boundedNotes...)
+	}
 	wall := time.Since(start).Seconds()
 	if !*noEvidence {
 		writeEvidence(e, *verif, ps, *tier, seed, selected, discharged, bySolver, funcsUnderContract, res, violations, knownHit, wall)
@@ -896,4 +944,9 @@ func pruneOutDirs(root string) {
 			os.RemoveAll(filepath.Join(root, en.Name()))
 		}
 	}
+}
+
+func lastLine(s string) string {
+	lines := strings.Split(strings.TrimSpace(s), "\n")
+	return lines[len(lines)-1]
 }
